@@ -425,6 +425,112 @@ def r07_1(rep: Report, idx: Index, opts: list[Opt]) -> None:
                 rep.ok(rid, construct, 'c:quoting')
 
 
+def r07_1e(rep: Report, idx: Index) -> None:
+    """custom structured formatter of the DRM selection: the `all` shortcut may only be taken
+    when it has looked at the locations of the entries (component-sensitive dependence)"""
+    rid = 'R07.1'
+    rel = f'{OPT}/drm_options.py'
+    mod = idx.by_rel[rel]
+    f = mod.functions.get('_drm_selection_to_string')
+    if f is None:
+        raise AnalysisError('_drm_selection_to_string vanished')
+    fn = f.node
+    param = fn.args.args[0].arg
+    construct = f'{rel}::_drm_selection_to_string'
+    binds: dict[str, set[str]] = {}
+    for n in ast.walk(fn):
+        tgt = it = None
+        if isinstance(n, (ast.For, ast.comprehension)):
+            tgt, it = n.target, n.iter
+        if tgt is not None and isinstance(tgt, ast.Tuple) and len(tgt.elts) == 2:
+            for i, e in enumerate(tgt.elts):
+                if isinstance(e, ast.Name):
+                    binds.setdefault(e.id, set()).add(f'v{i}')
+    # assignments / appends with their control dependencies
+    defs: dict[str, list[tuple[ast.AST, list[ast.AST]]]] = {}
+    from ..core import ancestors as _anc
+    for n in ast.walk(fn):
+        name = val = None
+        if isinstance(n, ast.Assign) and isinstance(n.targets[0], ast.Name):
+            name, val = n.targets[0].id, n.value
+        elif isinstance(n, ast.Call) and isinstance(n.func, ast.Attribute) and n.func.attr in ('append', 'add') \
+                and isinstance(n.func.value, ast.Name) and n.args:
+            name, val = n.func.value.id, n.args[0]
+        if name is None:
+            continue
+        ctrl = [a.test for a in _anc(n) if isinstance(a, ast.If)]
+        defs.setdefault(name, []).append((val, ctrl))
+
+    def deps(e: ast.AST, depth: int = 0) -> set[str]:
+        out: set[str] = set()
+        if isinstance(e, ast.Subscript) and isinstance(e.value, ast.Subscript) \
+                and isinstance(e.value.value, ast.Name) and e.value.value.id == param \
+                and isinstance(e.slice, ast.Constant) and e.slice.value in (0, 1):
+            return {f'v{e.slice.value}'}
+        if isinstance(e, (ast.SetComp, ast.ListComp, ast.GeneratorExp)):
+            local = {}
+            for g in e.generators:
+                if isinstance(g.target, ast.Tuple) and isinstance(g.iter, ast.Name) and g.iter.id == param:
+                    for i, t in enumerate(g.target.elts):
+                        if isinstance(t, ast.Name):
+                            local[t.id] = {f'v{i}'}
+            for n in ast.walk(e.elt):
+                if isinstance(n, ast.Name):
+                    out |= local.get(n.id, set()) or (deps(n, depth + 1) if n.id not in local else set())
+            return out
+        if isinstance(e, ast.Name):
+            if e.id == param:
+                return {'v0', 'v1'}
+            if e.id in binds and e.id != '_':
+                return set(binds[e.id])
+            if e.id in defs and depth < 4:
+                for val, ctrl in defs[e.id]:
+                    out |= deps(val, depth + 1)
+                    for c in ctrl:
+                        out |= deps(c, depth + 1)
+            return out
+        for ch in ast.iter_child_nodes(e):
+            out |= deps(ch, depth)
+        return out
+    n_sites = 0
+    for n in ast.walk(fn):
+        if isinstance(n, ast.Constant) and n.value == 'all':
+            n_sites += 1
+            tests = [a.test for a in _anc(n) if isinstance(a, ast.If)]
+            d: set[str] = set()
+            for t in tests:
+                d |= deps(t)
+            key = f"'all' shortcut under {[norm(t)[:50] for t in tests]}"
+            if 'v1' in d:
+                rep.ok(rid, construct, "e:'all' shortcut looks at the locations", key)
+            else:
+                rep.fail(rid, construct, "e:'all' shortcut looks at the locations",
+                         f"the compact `all` form is chosen under {[norm(t) for t in tests]}, which "
+                         'depends on the DRM names only: per-system location sets are dropped, so '
+                         'drm=clearkey-cenc,marlin-cenc,playready-moov is forwarded as a different '
+                         'selection', n)
+    if n_sites == 0:
+        rep.ok(rid, construct, "e:'all' shortcut looks at the locations", 'no shortcut used')
+    # every entry is rendered with its own name and its own locations
+    loop = [n for n in ast.walk(fn) if isinstance(n, ast.For) and isinstance(n.iter, ast.Name)]
+    ok = False
+    for lp in loop:
+        names = [e.id for e in lp.target.elts] if isinstance(lp.target, ast.Tuple) else []
+        if len(names) == 2:
+            body = ' '.join(norm(b) for b in lp.body)
+            if names[0] in body and names[1] in body and lp.iter.id == param:
+                ok = True
+    # the iterated collection must be the parameter itself, not a rewritten copy
+    reassigned = any(isinstance(n, ast.Assign) and isinstance(n.targets[0], ast.Name)
+                     and n.targets[0].id == param for n in ast.walk(fn))
+    if ok and not reassigned:
+        rep.ok(rid, construct, 'e:each entry rendered from its own name and locations')
+    else:
+        rep.fail(rid, construct, 'e:each entry rendered from its own name and locations',
+                 'the formatter does not render every (drm, locations) entry of its argument '
+                 f'(argument reassigned: {reassigned})', fn)
+
+
 # --------------------------------------------------------------------------
 EXEMPT_READS = {
     'mode': 'path component of every media URL, added by calculate_options',
@@ -640,6 +746,7 @@ def analyse(rep: Report) -> None:
                               'usage': sorted(o.usage), 'from': o.from_string, 'to': o.to_string}
                              for o in opts]
     r07_1(rep, idx, opts)
+    r07_1e(rep, idx)
     r07_2(rep, idx, cg, opts)
     r07_3(rep, idx)
     r07_4(rep, idx)
